@@ -500,6 +500,8 @@ func (r *replayGen) goE(e *E, env *goEnv) string {
 			return "any(!gvB(" + x + "))"
 		case "-":
 			return "any(-gvNum(" + x + "))"
+		case "*":
+			return "gvDeref(" + x + ")"
 		}
 	case "bin":
 		switch e.Name {
